@@ -24,8 +24,13 @@ claim("C13",
       "Every Statement created in the scheduler is committed, discarded or handed over on every path; Evict/Pipeline/Allocate log exactly one record per success and register inverses that restore every PodInfo field they (or the plugin handlers they fire) write, from values read before the first write, firing the opposite handler; Commit emits only operationValid operations through commit*, stops after a failed bind and never undoes; undo selects only still-valid operations; Cache.Bind/Evict/TaskPipelined are reachable only from the commit path and Session.Evict; Rollback/Discard undo in reverse order and truncate the log. State equality after undo for all sequences is not decided.",
       NOTE)
 
+claim("C03",
+      "must-pass-through on member loops and checkpoint/rollback loops, guard dominance of Commit by the attempt's success flag with value-fact summaries down to AllocateJob / JobSolver.Solve, per-path return facts (split at merges) of the attempt and of the solver verdict, sibling agreement of the gang tests, provenance of scenario victims",
+      "A failed member placement aborts the gang attempt and every failed node-set attempt is rolled back to its checkpoint; every Commit outside the framework is dominated by the success flag of the attempt that produced/received that statement, and success implies AllocateJob or JobSolver.Solve succeeded; an allocate attempt succeeds only if the gang is not half-nominated or was converted; the solver reports solved only with IsGangSatisfied and progress; gang tests iterate all pod sets; 'evict one pod' is chosen only above minAvailable by active-allocated counts; victims come only from GetTasksToEvict through EvictAllPreemptees. Counting over arbitrary partitions is not decided.",
+      NOTE)
+
 NA = {
     "C15": "quantifies over infinite executions of a closed system (lasso freedom); no static shape of the code settles it. Its three guards (strict saturation comparison with multiplier >= 1, strictly-lower priority for preempt, consolidation only when all victims are re-placed) are decided as clauses of C07 and C06.",
 }
-for _p in ["C03","C04","C05","C06","C07","C08","C09","C10","C11","C12","C16","C17","C18","C19","C20"]:
+for _p in ["C04","C05","C06","C07","C08","C09","C10","C11","C12","C16","C17","C18","C19","C20"]:
     NA.setdefault(_p, "check under construction in this session (see DESIGN.md §4 for the planned static obligations); not claimed until the check exists")
